@@ -1356,7 +1356,7 @@ pub fn run_transport(cfg: &TransportCfg, sc: &mut Sc) {
         sc.ex.set_recv_nonce(rd, u64::MAX - 1);
         dirs[d].send_n = u64::MAX - 1;
         dirs[d].recv_n = u64::MAX - 1;
-        let plen = 1 + r.below(40);
+        let plen = 16 + r.below(40);
         let p = r.bytes(plen);
         let o = sc.ex.t_write(w, &p, p.len() + 16);
         sc.count("t.last_usable_nonce");
@@ -1367,6 +1367,9 @@ pub fn run_transport(cfg: &TransportCfg, sc: &mut Sc) {
                 if o2.bytes() == Some(p.as_slice()) {
                     dirs[d].recv_n = u64::MAX;
                 } else {
+                    if p.len() >= 16 && sc.ex.last_buf.windows(p.len()).any(|x| x == p.as_slice()) {
+                        sc.viol("C19", format!("{}: the read of the message under nonce 2^64-2 returned {o2:?} but left the decrypted payload in the caller's buffer", cfg.name));
+                    }
                     sc.viol("C09", format!("{}: the message under the last usable nonce 2^64-2 was refused by the reader: {o2:?}", cfg.name));
                     sc.viol("C05", format!("{}: the next in-order message (nonce 2^64-2) was rejected: {o2:?}", cfg.name));
                     sc.viol("C04", format!("{}: the peer's genuine message under nonce 2^64-2 was rejected: {o2:?}", cfg.name));
